@@ -10,6 +10,11 @@ package main
 //                     (seed computed - the predicate was evaluated on every item - read lock held: the
 //                     model's `snapping`); releasing it registers the listener and drops the lock (`listen`).
 //
+// With a second subscriber (`pred2`, its own predicate; model `msched`, ScVerif/C08/SubscribeMany.lean) both
+// can hold the read lock together, a write gets through only when neither does, and every publication is
+// handed to whichever of them listen at that moment.  (sync.RWMutex keeps NEW readers out while a writer
+// waits, so a subscriber that has not started yet is not started while a write is blocked.)
+//
 // A write started while the subscriber is parked must NOT get through (the model disables `commit` and
 // `deleteNow` while snapping): the harness gives it raceGrace to reach its park point or to return, and
 // otherwise records the step as blocked; after `listen` the same write is waited for and becomes the
@@ -34,17 +39,43 @@ import (
 type schedCase struct {
 	Kind    string   `json:"kind"` // "sched"
 	Pred    pred     `json:"pred"`
-	Init    []string `json:"init"`    // writes before anything concurrent happens
-	Prog    []string `json:"prog"`    // the writer thread's writes, in order: add/upd/ups/del
-	Choices []int    `json:"choices"` // scheduler choices: 0 = a writer starts the next write, 1 = subscriber moves, 2 = publish the oldest pending commit; an odd count allows two pending commits
+	Init    []string `json:"init"`            // writes before anything concurrent happens
+	Prog    []string `json:"prog"`            // the writer thread's writes, in order: add/upd/ups/del
+	Choices []int    `json:"choices"`         // scheduler choices: 0 = a writer starts the next write, 1 = subscriber moves, 2 = publish the oldest pending commit (3 = the second subscriber moves); an odd count allows two pending commits
+	Pred2   *pred    `json:"pred2,omitempty"` // a second subscriber on the same collection, with its own predicate
+	// Split: minibus.Bus.Send is taken apart through the yield point bus.send.beforeListener - choice 2 is, when
+	// no Send is in flight, "the oldest pending commit's Send copies the listener slice" (`ps`) and otherwise
+	// "the event in flight is handed to the next listener of the copy" (`pn`); model `fsched`
+	Split bool `json:"split,omitempty"`
+	// Lossy: the subscribers pull with WithBackpressure(false) (the default) and do not read before the end of
+	// the schedule, so everything published to them goes through the real mergeCollectionExcess goroutine and
+	// is merged there; model `lsched`: the streams the merge machine can emit for what the subscriber was sent
+	Lossy bool `json:"lossy,omitempty"`
+}
+
+func (c schedCase) preds() []pred {
+	if c.Pred2 != nil {
+		return []pred{c.Pred, *c.Pred2}
+	}
+	return []pred{c.Pred}
+}
+
+// subObs: what one subscriber was sent, and List with its predicate at the end.
+type subObs struct {
+	Seed []string `json:"seed"`
+	Recv []string `json:"recv"`
+	List string   `json:"list"`
+	// Stale: the ids with a commit still unpublished at the moment this subscriber registered (its seed
+	// contains those commits, and their events reach it afterwards all the same)
+	Stale []string `json:"stale,omitempty"`
 }
 
 type schedObs struct {
-	Steps   []string `json:"steps"`  // the model steps that were executed (what the driver is asked)
-	Notes   []string `json:"notes"`  // blocked writes etc.
-	Seed    []string `json:"seed"`   // delivered seed events
-	Recv    []string `json:"recv"`   // delivered later events (up to, not including, the fence)
-	List    string   `json:"list"`   // List(WithInclude p) at the end
+	Steps   []string `json:"steps"` // the model steps that were executed (what the driver is asked)
+	Notes   []string `json:"notes"` // blocked writes etc.
+	Per     []subObs `json:"per"`   // per subscriber: delivered seed events, delivered later events (up to, not including, the fence), List(WithInclude p) at the end
+	Split   bool     `json:"split,omitempty"`
+	Lossy   bool     `json:"lossy,omitempty"`
 	Problem string   `json:"problem,omitempty"`
 	// MaxPending: the largest number of committed, unpublished writes at any moment; StaleAtListen: how
 	// many of them were pending when the subscriber registered (they are in its seed and reach it anyway)
@@ -56,12 +87,59 @@ func (o schedObs) answer() string {
 	if o.Problem != "" {
 		return "problem:" + o.Problem
 	}
-	return "seed=" + showChanges(o.Seed) + " recv=" + showChanges(o.Recv) + " list=" + o.List + " pend=0 sub=listen"
+	if o.Lossy {
+		var parts []string
+		for _, p := range o.Per {
+			parts = append(parts, "seed="+showChanges(p.Seed)+" list="+p.List+" sub=listen streams="+showChanges(p.Recv))
+		}
+		return strings.Join(parts, " # ") + " | pend=0"
+	}
+	if len(o.Per) == 1 && !o.Split {
+		return "seed=" + showChanges(o.Per[0].Seed) + " recv=" + showChanges(o.Per[0].Recv) + " list=" + o.Per[0].List + " pend=0 sub=listen"
+	}
+	var parts []string
+	for _, p := range o.Per {
+		parts = append(parts, "seed="+showChanges(p.Seed)+" recv="+showChanges(p.Recv)+" list="+p.List+" sub=listen")
+	}
+	if o.Split {
+		return strings.Join(parts, " # ") + " | pend=0 flight=0"
+	}
+	return strings.Join(parts, " # ") + " | pend=0"
 }
 
 func (c schedCase) driverLine(o schedObs) string {
-	toks := append([]string{"sched", c.Pred.token(), fmt.Sprint(len(c.Init))}, c.Init...)
+	if c.Pred2 == nil && !c.Split && !c.Lossy {
+		toks := append([]string{"sched", c.Pred.token(), fmt.Sprint(len(c.Init))}, c.Init...)
+		return strings.Join(append(toks, o.Steps...), " ")
+	}
+	opn := "msched"
+	if c.Split {
+		opn = "fsched"
+	}
+	if c.Lossy {
+		opn = "lsched"
+	}
+	toks := []string{opn, fmt.Sprint(len(c.preds()))}
+	for _, p := range c.preds() {
+		toks = append(toks, p.token())
+	}
+	toks = append(append(toks, fmt.Sprint(len(c.Init))), c.Init...)
 	return strings.Join(append(toks, o.Steps...), " ")
+}
+
+// schedSub is one subscriber of a schedule: its Pull runs in its own goroutine and parks at
+// coll.onUpdate.beforeListen.
+type schedSub struct {
+	id        atomic.Int64
+	parked    chan struct{}
+	release   chan struct{}
+	pulled    chan (<-chan *resource.CollectionChange)
+	state     int // 0 idle, 1 snapping, 2 listening
+	mu        sync.Mutex
+	events    []string
+	fenceSeen chan struct{}
+	ch        <-chan *resource.CollectionChange // (Lossy) not read before the end of the schedule
+	stale     []string
 }
 
 // pendingWrite is a write under way in its own goroutine (a writer thread).
@@ -69,6 +147,7 @@ type pendingWrite struct {
 	op      string
 	parked  chan struct{} // signalled when it reaches coll.update.beforeSend (committed, not yet published)
 	release chan struct{}
+	step    chan struct{} // (Split) lets the write's Bus.Send go on from bus.send.beforeListener to its next park
 	done    chan struct{}
 }
 
@@ -81,10 +160,12 @@ func (c schedCase) run() (o schedObs) {
 	defer cancel()
 
 	var writers sync.Map // goroutine id -> *pendingWrite
-	var subID atomic.Int64
-	subID.Store(-1)
-	sParked := make(chan struct{}, 1)
-	sRelease := make(chan struct{})
+	preds := c.preds()
+	subs := make([]*schedSub, len(preds))
+	for k := range subs {
+		subs[k] = &schedSub{parked: make(chan struct{}, 1), release: make(chan struct{}), pulled: make(chan (<-chan *resource.CollectionChange), 1), fenceSeen: make(chan struct{})}
+		subs[k].id.Store(-1)
+	}
 	verifhook.Set(func(point string) {
 		switch point {
 		case "coll.update.beforeSend":
@@ -93,43 +174,84 @@ func (c schedCase) run() (o schedObs) {
 				pw.parked <- struct{}{}
 				<-pw.release
 			}
+		case "bus.send.beforeListener":
+			if !c.Split {
+				return
+			}
+			if w, ok := writers.Load(verifhook.GoID()); ok {
+				pw := w.(*pendingWrite)
+				if strings.HasPrefix(pw.op, "del:") {
+					return // a Delete publishes under the write lock: one atomic step
+				}
+				pw.parked <- struct{}{}
+				<-pw.step
+			}
 		case "coll.onUpdate.beforeListen":
-			if verifhook.GoID() == subID.Load() {
-				sParked <- struct{}{}
-				<-sRelease
+			gid := verifhook.GoID()
+			for _, sb := range subs {
+				if sb.id.Load() == gid {
+					sb.parked <- struct{}{}
+					<-sb.release
+				}
 			}
 		}
 	})
 	defer verifhook.Set(nil)
 
 	// subscriber side
-	var mu sync.Mutex
-	var events []string
-	fenceSeen := make(chan struct{})
-	pulled := make(chan (<-chan *resource.CollectionChange), 1)
-	startSub := func() {
+	startSub := func(k int) {
+		sb := subs[k]
+		ready := make(chan struct{})
 		go func() {
-			subID.Store(verifhook.GoID())
+			sb.id.Store(verifhook.GoID())
+			close(ready)
 			var opts []resource.ReadOption
-			if ff := c.Pred.filterFunc(); ff != nil {
+			if ff := preds[k].filterFunc(); ff != nil {
 				opts = append(opts, resource.WithInclude(ff))
 			}
-			opts = append(opts, resource.WithBackpressure(true))
-			pulled <- col.Pull(ctx, opts...)
+			opts = append(opts, resource.WithBackpressure(!c.Lossy))
+			sb.pulled <- col.Pull(ctx, opts...)
 		}()
+		<-ready
 	}
-	consume := func(ch <-chan *resource.CollectionChange) {
+	consume := func(sb *schedSub, ch <-chan *resource.CollectionChange) {
+		if c.Lossy && sb.ch == nil {
+			sb.ch = ch // read at the end
+			return
+		}
 		go func() {
 			for ev := range ch {
 				if ev.Id == fenceID {
-					close(fenceSeen)
+					close(sb.fenceSeen)
 					return
 				}
-				mu.Lock()
-				events = append(events, showChange(ev, false))
-				mu.Unlock()
+				sb.mu.Lock()
+				sb.events = append(sb.events, showChange(ev, false))
+				sb.mu.Unlock()
 			}
 		}()
+	}
+	stepName := func(kind string, k int) string {
+		if len(subs) == 1 && !c.Split && !c.Lossy {
+			return kind
+		}
+		return fmt.Sprintf("%s=%d", kind, k)
+	}
+	anySnapping := func() bool {
+		for _, sb := range subs {
+			if sb.state == 1 {
+				return true
+			}
+		}
+		return false
+	}
+	allListening := func() bool {
+		for _, sb := range subs {
+			if sb.state != 2 {
+				return false
+			}
+		}
+		return true
 	}
 
 	// writer side: every write runs in its own goroutine (a writer thread); `queue` holds the writes that
@@ -141,7 +263,7 @@ func (c schedCase) run() (o schedObs) {
 	prog := append([]string{}, c.Prog...)
 	var all []*pendingWrite
 	start := func(op string) *pendingWrite {
-		pw := &pendingWrite{op: op, parked: make(chan struct{}, 1), release: make(chan struct{}), done: make(chan struct{})}
+		pw := &pendingWrite{op: op, parked: make(chan struct{}, 1), release: make(chan struct{}), step: make(chan struct{}), done: make(chan struct{})}
 		all = append(all, pw)
 		ready := make(chan struct{})
 		go func() {
@@ -170,7 +292,6 @@ func (c schedCase) run() (o schedObs) {
 			return false, false
 		}
 	}
-	subState := 0 // 0 idle, 1 snapping, 2 listening
 	problem := func(s string) schedObs {
 		o.Problem = s
 		// let everything run out
@@ -181,46 +302,94 @@ func (c schedCase) run() (o schedObs) {
 			default:
 				close(pw.release)
 			}
+			close(pw.step)
 		}
-		close(sRelease)
+		for _, sb := range subs {
+			close(sb.release)
+		}
 		return o
 	}
+	o.Split, o.Lossy = c.Split, c.Lossy
+	var flight *pendingWrite           // (Split) the write whose Bus.Send has copied the listener slice and is parked before a listener
 	maxPending := 1 + len(c.Choices)%2 // one or two writer threads with unpublished commits at a time
 
+	nch := 3
+	if len(subs) > 1 {
+		nch = 4
+	}
+	// the choice that is taken when the scheduler's choice is not enabled: the next enabled one in this order
+	fallback := map[int][]int{0: {0, 2, 1, 3}, 2: {2, 1, 3, 0}, 1: {1, 3, 0, 2}, 3: {3, 1, 0, 2}}
 	choice := 0
-	for len(prog) > 0 || len(queue) > 0 || blocked != nil || subState != 2 {
-		ch := choice % 3
+	for len(prog) > 0 || len(queue) > 0 || flight != nil || blocked != nil || !allListening() {
+		ch := choice % nch
 		if choice < len(c.Choices) {
-			ch = c.Choices[choice] % 3
+			ch = c.Choices[choice] % nch
 		}
 		choice++
-		// 0 = a writer starts the next write, 1 = the subscriber moves, 2 = the oldest pending commit is published
-		canStart := len(prog) > 0 && blocked == nil && len(queue) < maxPending &&
-			!(strings.HasPrefix(prog[0], "del:") && len(queue) > 0) // a Delete publishes under the lock: only when nothing is pending
-		canPublish := len(queue) > 0
-		canSub := subState != 2
-		if ch == 0 && !canStart {
-			ch = 2
+		// 0 = a writer starts the next write, 1 = the subscriber moves, 2 = the oldest pending commit is published,
+		// 3 = the second subscriber moves
+		enabled := func(m int) bool {
+			switch m {
+			case 0:
+				return len(prog) > 0 && blocked == nil && len(queue) < maxPending &&
+					!(strings.HasPrefix(prog[0], "del:") && (len(queue) > 0 || flight != nil)) // a Delete publishes under the lock: only when nothing is pending or in flight
+			case 2:
+				return len(queue) > 0 || flight != nil
+			case 1, 3:
+				k := m / 2
+				// (a subscriber that has not started is not started while a write waits for the lock: RWMutex
+				// keeps new readers out then)
+				return k < len(subs) && subs[k].state != 2 && !(subs[k].state == 0 && blocked != nil)
+			}
+			return false
 		}
-		if ch == 2 && !canPublish {
-			ch = 1
-		}
-		if ch == 1 && !canSub {
-			if canStart {
-				ch = 0
-			} else {
-				ch = 2
+		picked := -1
+		for _, m := range fallback[ch] {
+			if enabled(m) {
+				picked = m
+				break
 			}
 		}
-		switch ch {
+		if picked < 0 {
+			return problem("no step enabled")
+		}
+		switch picked {
 		case 2:
+			if c.Split {
+				if flight == nil {
+					pw := queue[0]
+					queue = queue[1:]
+					close(pw.release) // leaves coll.update.beforeSend and enters Bus.Send
+					parked, returned := settle(pw, fenceTimeout)
+					switch {
+					case parked:
+						flight = pw // listener slice copied, nothing handed out yet
+					case returned: // nobody listens
+					default:
+						return problem("Send of " + pw.op + " neither reached a listener nor returned within the time limit")
+					}
+					o.Steps = append(o.Steps, "ps")
+				} else {
+					flight.step <- struct{}{}
+					parked, returned := settle(flight, fenceTimeout)
+					switch {
+					case parked:
+					case returned:
+						flight = nil
+					default:
+						return problem("Send of " + flight.op + " did not get past a listener within the time limit")
+					}
+					o.Steps = append(o.Steps, "pn")
+				}
+				break
+			}
 			pw := queue[0]
 			queue = queue[1:]
 			close(pw.release)
 			select {
 			case <-pw.done:
 			case <-time.After(fenceTimeout):
-				return problem("publish of " + pw.op + " did not return within 5s")
+				return problem("publish of " + pw.op + " did not return within the time limit")
 			}
 			o.Steps = append(o.Steps, "p")
 		case 0:
@@ -228,8 +397,8 @@ func (c schedCase) run() (o schedObs) {
 			prog = prog[1:]
 			pw := start(op)
 			o.Steps = append(o.Steps, stepOf(op))
-			if subState == 1 {
-				// the subscriber holds the read lock: the model says this step is disabled
+			if anySnapping() {
+				// a subscriber holds the read lock: the model says this step is disabled
 				parked, returned := settle(pw, raceGrace)
 				switch {
 				case parked:
@@ -252,32 +421,39 @@ func (c schedCase) run() (o schedObs) {
 					}
 				case returned:
 				default:
-					return problem(op + " neither committed nor returned within 5s")
+					return problem(op + " neither committed nor returned within the time limit")
 				}
 			}
-		case 1:
-			switch subState {
+		case 1, 3:
+			k := picked / 2
+			sb := subs[k]
+			switch sb.state {
 			case 0:
-				startSub()
+				startSub(k)
 				select {
-				case <-sParked:
+				case <-sb.parked:
 				case <-time.After(fenceTimeout):
-					return problem("Pull did not reach coll.onUpdate.beforeListen within 5s")
+					return problem("Pull did not reach coll.onUpdate.beforeListen within the time limit")
 				}
-				o.Steps = append(o.Steps, "s")
-				subState = 1
+				o.Steps = append(o.Steps, stepName("s", k))
+				sb.state = 1
 			case 1:
-				sRelease <- struct{}{}
+				sb.release <- struct{}{}
 				select {
-				case chn := <-pulled:
-					consume(chn)
+				case chn := <-sb.pulled:
+					consume(sb, chn)
 				case <-time.After(fenceTimeout):
-					return problem("Pull did not return within 5s")
+					return problem("Pull did not return within the time limit")
 				}
-				o.Steps = append(o.Steps, "l")
-				subState = 2
-				o.StaleAtListen = len(queue)
-				if blocked != nil {
+				o.Steps = append(o.Steps, stepName("l", k))
+				sb.state = 2
+				if k == 0 {
+					o.StaleAtListen = len(queue)
+				}
+				for _, pw := range queue {
+					sb.stale = append(sb.stale, strings.Split(pw.op, ":")[1])
+				}
+				if blocked != nil && !anySnapping() {
 					// the blocked write gets through now: it is the model's step, enabled this time
 					pw := blocked
 					blocked = nil
@@ -288,32 +464,41 @@ func (c schedCase) run() (o schedObs) {
 						queue = append(queue, pw)
 					case returned:
 					default:
-						return problem(pw.op + " still blocked 5s after the subscriber released the lock")
+						return problem(pw.op + " still blocked after the subscribers released the lock")
 					}
 				}
 			}
 		}
 	}
 	verifhook.Set(nil)
-	o.List = listWithInclude(col, c.Pred)
+	o.Per = make([]subObs, len(subs))
+	for k := range subs {
+		o.Per[k].List = listWithInclude(col, preds[k])
+	}
 	// quiescent: drain to a fence
 	if _, err := col.Add(fenceID, msgOf("f")); err != nil {
 		o.Problem = "fence write failed"
 		return o
 	}
-	select {
-	case <-fenceSeen:
-	case <-time.After(fenceTimeout):
-		o.Problem = "fence not delivered within 5s"
-	}
-	mu.Lock()
-	defer mu.Unlock()
-	for _, ev := range events {
-		if isSeed(ev) {
-			o.Seed = append(o.Seed, ev)
-		} else {
-			o.Recv = append(o.Recv, ev)
+	for k, sb := range subs {
+		if c.Lossy {
+			consume(sb, sb.ch)
 		}
+		o.Per[k].Stale = sb.stale
+		select {
+		case <-sb.fenceSeen:
+		case <-time.After(fenceTimeout):
+			o.Problem = "fence not delivered within the time limit"
+		}
+		sb.mu.Lock()
+		for _, ev := range sb.events {
+			if isSeed(ev) {
+				o.Per[k].Seed = append(o.Per[k].Seed, ev)
+			} else {
+				o.Per[k].Recv = append(o.Per[k].Recv, ev)
+			}
+		}
+		sb.mu.Unlock()
 	}
 	return o
 }
@@ -334,25 +519,44 @@ func (c schedCase) monitor(m sink, o schedObs) {
 	for _, op := range c.Prog {
 		sh.apply(op)
 	}
-	view := map[string]string{}
-	for _, ev := range append(append([]string{}, o.Seed...), o.Recv...) {
-		f := splitComma(ev)
-		if len(f) != 7 {
-			continue
-		}
-		if f[1] == "REMOVE" {
-			delete(view, f[0])
-		} else {
-			view[f[0]] = f[4]
-		}
+	pre := "C08/sched/"
+	if c.Pred2 != nil {
+		pre = "C08/sched/two-subscribers/"
 	}
-	vf := &viewFold{view: view}
-	want := sh.filtered(c.Pred, "")
-	if got := vf.String(); got != want {
-		m.Violate("C08/sched/fold-differs-from-filtered-collection", "after a schedule interleaving a writer with Pull's snapshot/listen, folding seed + stream does not give the filtered collection", c, want, got)
+	if c.Split {
+		pre += "split-send/"
 	}
-	if o.List != want {
-		m.Violate("C08/sched/List-not-filtered-collection", "List(WithInclude) is not the filtered collection", c, want, o.List)
+	if c.Lossy {
+		pre = "C08/sched/lossy/"
+	}
+	for k, p := range c.preds() {
+		if k >= len(o.Per) {
+			break
+		}
+		view := map[string]string{}
+		for _, ev := range append(append([]string{}, o.Per[k].Seed...), o.Per[k].Recv...) {
+			f := splitComma(ev)
+			if len(f) != 7 {
+				continue
+			}
+			if f[1] == "REMOVE" {
+				delete(view, f[0])
+			} else {
+				view[f[0]] = f[4]
+			}
+		}
+		vf := &viewFold{view: view}
+		want := sh.filtered(p, "")
+		if got := vf.String(); got != want && c.Lossy && onlyStaleDiffer(got, want, o.Per[k].Stale) {
+			// the only ids that differ had a commit unpublished when the subscriber registered: the event of a
+			// commit its seed already contains was merged with later events of the id by the lossy machine
+			m.Violate(pre+"stale-event-merged/fold-differs-from-filtered-collection", "a lossy subscriber registered while a commit was still unpublished (publish after unlock): its seed contains the commit, the late event was merged with later events of the id by mergeCollectionExcess, include judged the merged change from the stale old value, and the folded view differs from the filtered collection at that id", c, want, got)
+		} else if got != want {
+			m.Violate(pre+"fold-differs-from-filtered-collection", "after a schedule interleaving a writer with Pull's snapshot/listen, folding seed + stream does not give the filtered collection", c, want, got)
+		}
+		if o.Per[k].List != want {
+			m.Violate(pre+"List-not-filtered-collection", "List(WithInclude) is not the filtered collection", c, want, o.Per[k].List)
+		}
 	}
 	for _, n := range o.Notes {
 		if strings.Contains(n, "COMMITTED") {
@@ -362,7 +566,51 @@ func (c schedCase) monitor(m sink, o schedObs) {
 			m.Count("write blocked while the subscriber held the lock")
 		}
 	}
-	m.Eval(c.Pred.token()+"/"+strings.Join(c.Init, " ")+"/"+strings.Join(o.Steps, " "), !c.Pred.Nil, nil)
+	m.Eval(c.predKey()+"/"+strings.Join(c.Init, " ")+"/"+strings.Join(o.Steps, " "), !c.Pred.Nil, nil)
+}
+
+// onlyStaleDiffer: the views `id=v,...` differ exactly at ids listed in stale.
+func onlyStaleDiffer(got, want string, stale []string) bool {
+	parse := func(s string) map[string]string {
+		m := map[string]string{}
+		if s == "-" {
+			return m
+		}
+		for _, kv := range strings.Split(s, ",") {
+			q := strings.SplitN(kv, "=", 2)
+			if len(q) == 2 {
+				m[q[0]] = q[1]
+			}
+		}
+		return m
+	}
+	g, w := parse(got), parse(want)
+	differ := false
+	check := func(id string) bool {
+		if g[id] == w[id] {
+			return true
+		}
+		differ = true
+		return index(id, stale) >= 0
+	}
+	for id := range g {
+		if !check(id) {
+			return false
+		}
+	}
+	for id := range w {
+		if !check(id) {
+			return false
+		}
+	}
+	return differ
+}
+
+func (c schedCase) predKey() string {
+	if c.Pred2 != nil {
+		return c.Pred.token() + "+" + c.Pred2.token()
+	}
+	return c.Pred.token()
 }
 
 func genSched(r *rand.Rand) schedCase {
@@ -406,19 +654,93 @@ func genSched(r *rand.Rand) schedCase {
 	case 4: // both: a commit pending, then a write started under the subscriber's lock
 		c.Choices = append(c.Choices, 0, 1, 0, 1)
 	}
-	for i, n := 0, 3*len(c.Prog)+4+r.Intn(2); i < n; i++ {
-		c.Choices = append(c.Choices, r.Intn(3))
+	nch := 3
+	if r.Intn(3) == 0 {
+		// a second subscriber with a predicate of its own (now and then the same one)
+		p2 := pred{Ids: ids, Vals: vals2, Mask: uint64(r.Int63()) & (1<<bits - 1)}
+		if r.Intn(6) == 0 {
+			p2 = c.Pred
+		}
+		c.Pred2 = &p2
+		nch = 4
+		// other fixed prefixes: both hold the lock when a write starts; the second snapshots while the first
+		// listens and a commit is pending; the second starts while a write is blocked by the first
+		switch r.Intn(5) {
+		case 1:
+			c.Choices = []int{1, 3, 0, 1, 3}
+		case 2:
+			c.Choices = []int{1, 1, 0, 3, 0, 3}
+		case 3:
+			c.Choices = []int{0, 3, 1, 0, 3, 1}
+		case 4:
+			c.Choices = []int{1, 0, 3, 1}
+		}
+	}
+	if r.Intn(3) == 0 {
+		// Bus.Send taken apart: choice 2 = copy the listener slice / hand the event to the next listener
+		c.Split = true
+		if c.Pred2 != nil && r.Intn(2) == 0 {
+			// the second subscriber takes its seed and registers between a Send's copy and its delivery
+			c.Choices = []int{1, 1, 0, 2, 3, 3, 2}
+		}
+	}
+	if !c.Split && r.Intn(4) == 0 {
+		c.Lossy = true
+	}
+	nc := 3*len(c.Prog) + 4 + r.Intn(2)
+	if c.Split {
+		nc += 2 * len(c.Prog)
+	}
+	for i := 0; i < nc; i++ {
+		c.Choices = append(c.Choices, r.Intn(nch))
 	}
 	return c
 }
 
+// acceptStreams: in the model's `lsched` answer every subscriber has `streams=<s1>|<s2>|...`, the streams the
+// merge machine can emit for what the subscriber was sent; the delivered stream must be one of them (then the
+// model side shows it, else the whole set).
+func acceptStreams(ans string, o schedObs) string {
+	tail := ""
+	if k := strings.LastIndex(ans, " | "); k >= 0 {
+		ans, tail = ans[:k], ans[k:]
+	}
+	parts := strings.Split(ans, " # ")
+	for k := range parts {
+		i := strings.LastIndex(parts[k], " streams=")
+		if i < 0 || k >= len(o.Per) {
+			continue
+		}
+		set := parts[k][i+len(" streams="):]
+		got := showChanges(o.Per[k].Recv)
+		found := false
+		for _, st := range strings.Split(set, "|") {
+			if st == got {
+				found = true
+			}
+		}
+		if found {
+			parts[k] = parts[k][:i] + " streams=" + got
+		} else {
+			parts[k] = parts[k][:i] + " streams=one-of{" + set + "}"
+		}
+	}
+	return strings.Join(parts, " # ") + tail
+}
+
 func runSched(f lib.Flags, res *lib.Result, drv *lib.Driver) {
 	tie := res.Tie("subscribe-schedules", "K4",
-		"schedules of the concurrent subscribe model executed on a real Collection through the yield points coll.update.beforeSend (a writer committed, not yet published) and coll.onUpdate.beforeListen (subscriber computed its seed, read lock held): 1-6 writes (Add/Update/Upsert/Delete incl. failing ones) over 1-2 ids x 2 values, each in its own writer goroutine, up to two of them committed and unpublished at a time, publications released in commit order, interleaved with Pull(WithInclude p, WithBackpressure(true))'s snapshot and listen steps - at random after a fixed prefix (commits pending at the snapshot; a write started under the subscriber's lock; both; none); thorough adds every choice sequence of length 5 for four small programs x three predicates; a write started while the subscriber holds the lock must block (model: step disabled) and is re-issued after listen; at the end the delivered seed, the delivered events and List(WithInclude p) are compared with the model's `sched` answer for the executed schedule; non-trivial = predicate not nil; distinct = (predicate, initial writes, executed steps)")
-	mon := res.Monitor("subscribe-fold", "on the same schedules, independent of the model: at the quiescent end fold(seed ++ delivered events) = List(WithInclude p) = the filtered plain map; distinct = (predicate, initial writes, executed steps)")
+		"schedules of the concurrent subscribe model executed on a real Collection through the yield points coll.update.beforeSend (a writer committed, not yet published) and coll.onUpdate.beforeListen (subscriber computed its seed, read lock held): 1-6 writes (Add/Update/Upsert/Delete incl. failing ones) over 1-2 ids x 2 values, each in its own writer goroutine, up to two of them committed and unpublished at a time, publications released in commit order, interleaved with Pull(WithInclude p, WithBackpressure(true))'s snapshot and listen steps - at random after a fixed prefix (commits pending at the snapshot; a write started under the subscriber's lock; both; none); a third of the schedules have a SECOND subscriber with a predicate of its own on the same collection (model `msched`, ScVerif/C08/SubscribeMany.lean: both may hold the read lock together, a write gets through only when neither does, a publication reaches whichever of them listen); in a third Bus.Send is taken apart through the yield point bus.send.beforeListener (model `fsched`, ScVerif/C08/SubscribeSend.lean: the Send copies the listener slice, then hands the event to the listeners of the copy one by one, other threads moving in between - a subscriber registering after the copy is not sent the event); a quarter of the others have LOSSY subscribers (WithBackpressure(false), nothing read before the end of the schedule: everything sent to them is merged by the real mergeCollectionExcess goroutine; model `lsched`: the delivered stream must be one of the streams the merge machine can emit for what the model's subscriber was sent); thorough adds every choice sequence of length 5 for four small programs x three predicates, and with two subscribers every sequence of 5 choices out of 4 for two programs; a write started while the subscriber holds the lock must block (model: step disabled) and is re-issued after listen; at the end the delivered seed, the delivered events and List(WithInclude p) are compared with the model's `sched` answer for the executed schedule; non-trivial = predicate not nil; distinct = (predicate, initial writes, executed steps)")
+	mon := res.Monitor("subscribe-fold", "on the same schedules, independent of the model: at the quiescent end, for every subscriber, fold(seed ++ delivered events) = List(WithInclude p) = the filtered plain map; distinct = (predicate, initial writes, executed steps)")
 	r := lib.NewRand(f.Seed + 13)
 	n := f.N(150, 1500)
 	var cases []schedCase
+	// the witness of the known finding C08/sched/lossy/stale-event-merged/... (known_findings/C08.json; Lean:
+	// C08_subscribe_lossy_stale_fails), run on every tier: predicate "value y"; x -> y commits, the lossy
+	// subscriber takes its seed (y) and registers, the stale event and a further update y -> x are published
+	// and merged to x -> x, which include drops
+	cases = append(cases, schedCase{Kind: "sched", Pred: pred{Ids: []string{"a"}, Vals: vals2, Mask: 4}, Init: []string{"add:a:x"},
+		Prog: []string{"upd:a:y", "upd:a:x"}, Choices: []int{0, 1, 1, 2, 0, 2}, Lossy: true})
 	for i := 0; i < n; i++ {
 		cases = append(cases, genSched(r))
 	}
@@ -438,6 +760,30 @@ func runSched(f lib.Flags, res *lib.Result, drv *lib.Driver) {
 			}
 		}
 	}
+	if f.Thorough() {
+		// the same with two subscribers (predicates "x" and "y"): every sequence of 5 choices out of 4
+		for _, prog := range [][]string{{"upd:a:y"}, {"upd:a:y", "del:a"}} {
+			for code := 0; code < 1024; code++ {
+				p2 := pred{Ids: []string{"a"}, Vals: vals2, Mask: 4}
+				c := schedCase{Kind: "sched", Pred: pred{Ids: []string{"a"}, Vals: vals2, Mask: 2}, Pred2: &p2, Init: []string{"add:a:x"}, Prog: prog}
+				for k, x := 0, code; k < 5; k, x = k+1, x/4 {
+					c.Choices = append(c.Choices, x%4)
+				}
+				cases = append(cases, c)
+			}
+		}
+	}
+	if f.Thorough() {
+		// and with Bus.Send taken apart: every sequence of 6 choices out of 4, two subscribers
+		for code := 0; code < 4096; code++ {
+			p2 := pred{Ids: []string{"a"}, Vals: vals2, Mask: 4}
+			c := schedCase{Kind: "sched", Pred: pred{Ids: []string{"a"}, Vals: vals2, Mask: 2}, Pred2: &p2, Init: []string{"add:a:x"}, Prog: []string{"upd:a:y", "upd:a:x"}, Split: true}
+			for k, x := 0, code; k < 6; k, x = k+1, x/4 {
+				c.Choices = append(c.Choices, x%4)
+			}
+			cases = append(cases, c)
+		}
+	}
 	for _, c := range cases {
 		var first schedObs
 		runs := 0
@@ -455,12 +801,37 @@ func runSched(f lib.Flags, res *lib.Result, drv *lib.Driver) {
 			tie.Fail(err)
 			return
 		}
-		key := c.Pred.token() + "/" + strings.Join(c.Init, " ") + "/" + strings.Join(first.Steps, " ")
+		if c.Lossy {
+			ans = acceptStreams(ans, first)
+			tie.Count("schedules with lossy subscribers that read at the end")
+		}
+		key := c.predKey() + "/" + strings.Join(c.Init, " ") + "/" + strings.Join(first.Steps, " ")
 		tie.Record(key, !c.Pred.Nil, map[string]any{"case": c, "executed": first}, ans, first.answer())
 		for _, n := range first.Notes {
 			if strings.Contains(n, "blocked") {
 				tie.Count("schedules with a write blocked by the subscriber's read lock")
 				break
+			}
+		}
+		if c.Split {
+			tie.Count("schedules with Bus.Send taken apart")
+			for i := 0; i+1 < len(first.Steps); i++ {
+				if first.Steps[i] == "ps" && first.Steps[i+1] != "pn" && first.Steps[i+1] != "ps" {
+					tie.Count("schedules with another thread's step between a Send's copy of the listeners and its delivery")
+					break
+				}
+			}
+		}
+		if c.Pred2 != nil {
+			tie.Count("schedules with two subscribers")
+			both := false
+			for i := 0; i+1 < len(first.Steps); i++ {
+				if strings.HasPrefix(first.Steps[i], "s=") && strings.HasPrefix(first.Steps[i+1], "s=") {
+					both = true
+				}
+			}
+			if both {
+				tie.Count("schedules in which both subscribers hold the read lock together")
 			}
 		}
 		tie.Count(fmt.Sprintf("commits pending when the subscriber registered: %d", first.StaleAtListen))
